@@ -76,6 +76,9 @@ impl Allocator {
             let id = entity.id() as usize;
 
             if !self.is_alive(entity) {
+                // The entities before `index` have been killed, so their
+                // indices can be reused.
+                self.cache.extend(delete[..index].iter().map(|e| e.0));
                 return Err((self.del_err(entity), index));
             }
 
